@@ -102,7 +102,7 @@ def cases(tier, rng):
                 yield {"k": 1500, "args": [ds, nets.topo_order(ds), elv, _w(dt)], "call": {"op": 1502, "dtype": dt, "via": via}, "group": "adjust-wide-confluence"}
     # D4 digging
     for t in range(250 if tier == "quick" else 3000):
-        nr, nc = rng.randint(2, 7), rng.randint(2, 7)
+        nr, nc = nets.rshape(rng, 2, 7)
         flw = nets.random_d8_raster(rng, nr, nc, p_nodata=rng.choice([0, 0, 0.1, 0.25]))
         ds = nets.d8_decode(flw, nr, nc)
         if not nets.pits(ds):
